@@ -279,7 +279,8 @@ class ResolvePortRefs(ElabPass):
 
         # Set the signal name, either from the NoConn or the instance/port names
         if noconn.name is not None:
-            sig.name = noconn.name
+            # Named no-connects keep their name, unless it is taken by something else in the module
+            sig.name = self.flatname(segments=[noconn.name], avoid=module.namespace)
         else:
             sig.name = self.flatname(
                 segments=[f"{portref.inst.name}_{portref.portname}"],
